@@ -13,6 +13,7 @@ import time
 
 SNAPSHOT = ('_worker', '_chunk_done', '_chunk_producer', '_stream_files', 'snapshot')
 RESTORE = ('_write_chunk_ref', '_download_chunk', '_write_file_part', 'restore')
+LOADERS = ('_load_snapshots', '_download_snapshot', '_download_snapshot_threadsafe', '_get_cached', '_store_cached', '_delete_cached', '_decrypt_snapshot_body')
 
 
 @contextlib.contextmanager
